@@ -824,6 +824,9 @@ class Table(Vector):
 					target_indices.append(idx)
 				elif isinstance(c, int):
 					target_indices.append(c)
+				else:
+					# (not skipped: the assignment would silently succeed on the other columns)
+					raise SerifTypeError(f"Invalid column index type: {type(c)}")
 		else:
 			raise SerifTypeError(f"Invalid column index type: {type(col_spec)}")
 
